@@ -75,7 +75,28 @@ VERIF_REACH_ENSURES(IsTopoSortedPackage, !__CPROVER_return_value && g_ci == 1 &&
 __CPROVER_assigns(later_txids->first, later_txids->size, g_ci, g_cj, g_cparent);
 #endif
 
+#ifdef C29_TU_CWP
+#define C29_F_CWP
+typedef struct { size_t of_tx; } InputTxidSet;       /* the set of txids spent by the inputs of transaction of_tx */
+size_t g_p; bool g_p_is_parent;                     /* pinned package position below the child, and whether the child spends that transaction */
+size_t g_first_nonparent;                           /* position of the first transaction the child does not spend, or n - 1 */
+static inline InputTxidSet InputTxidSet_of(const PackageView* p, size_t tx) { __CPROVER_assert(tx == p->n - 1, "the set is built from the LAST transaction's inputs"); InputTxidSet s = {tx}; return s; }
+static inline bool AllTxidsBelowAreIn(const PackageView* p, size_t below, const InputTxidSet* s) { __CPROVER_assert(below == p->n - 1 && s->of_tx == p->n - 1, "all_of ranges over every transaction but the last"); return g_first_nonparent == below; }
+bool IsChildWithParents(const PackageView* package)
+__CPROVER_requires(__CPROVER_is_fresh(package, sizeof(PackageView)) && package->n <= 0x02000000 && g_first_nonparent <= (package->n > 0 ? package->n - 1 : 0) && ((g_p < g_first_nonparent) ==> g_p_is_parent) && ((g_p == g_first_nonparent && package->n >= 1 && g_p < package->n - 1) ==> !g_p_is_parent))
+#ifdef TWIN_CWP
+__CPROVER_ensures(package->n == 1 ==> __CPROVER_return_value)
+#endif
+__CPROVER_ensures(package->n < 2 ==> !__CPROVER_return_value)
+__CPROVER_ensures((__CPROVER_return_value && package->n >= 1 && g_p < package->n - 1) ==> g_p_is_parent)                   /* accepted: every transaction but the last is a parent of the last */
+__CPROVER_ensures((!__CPROVER_return_value && package->n >= 2) ==> g_first_nonparent < package->n - 1)      /* rejected (two or more): some earlier transaction is not spent by the last */
+__CPROVER_assigns();
+#endif
+
 #include "slices.h"
+#ifdef C29_TU_CWP
+void h_IsChildWithParents(void) { const PackageView* p; g_p = nondet_size_t(); g_p_is_parent = nondet_bool(); g_first_nonparent = nondet_size_t(); bool r = IsChildWithParents(p); if (r) VERIF_REACH_PT("child with parents"); else VERIF_REACH_PT("not"); }
+#endif
 #ifdef C29_TU_WF
 void h_IsWellFormedPackage(void) { const PackageView* p; PackageValidationState* st; g_total_weight = nondet_i64(); g_distinct = nondet_size_t(); g_sorted = nondet_bool(); g_consistent = nondet_bool(); VERIF_REACH_ON(IsWellFormedPackage); IsWellFormedPackage(p, st); }
 #endif
